@@ -792,6 +792,178 @@ func eopaVersions(repo string) []string {
 	return vs
 }
 
+// presence: which of the names the target's capabilities have once its configuration is loaded (nil: it does not load)
+func (e *env) presence(t Target, names []string) (p []bool) {
+	defer func() {
+		if r := recover(); r != nil {
+			p = nil
+		}
+	}()
+	bs, err := json.Marshal(t.yamlDoc(e, nil))
+	must(err)
+	var uc config.Config
+	if err := yaml.Unmarshal(bs, &uc); err != nil {
+		return nil
+	}
+	caps := uc.Capabilities
+	if caps == nil {
+		caps = config.CapabilitiesForThisVersion()
+	}
+	for _, n := range names {
+		_, ok := caps.Builtins[n]
+		p = append(p, ok)
+	}
+	return p
+}
+
+func permutations(xs []string) [][]string {
+	if len(xs) <= 1 {
+		return [][]string{append([]string{}, xs...)}
+	}
+	var out [][]string
+	for i := range xs {
+		rest := append(append([]string{}, xs[:i]...), xs[i+1:]...)
+		for _, p := range permutations(rest) {
+			out = append(out, append([]string{xs[i]}, p...))
+		}
+	}
+	return out
+}
+
+func insertAt(xs []string, i int, x string) []string {
+	out := append([]string{}, xs[:i]...)
+	out = append(out, x)
+	return append(out, xs[i:]...)
+}
+
+// listJobs: the minus and plus sections are LISTS. For base targets in which each gate-relevant built-in is present /
+// absent (the oldest and the newest embedded version of every presence pattern found in the tree under test, the target
+// without a capabilities section, a generated file without sprintf): every ordering of the relevant names, entries the
+// base does not have (names of later engine versions, unknown names) at every position, duplicates, the same name in
+// minus and in plus, random lists. What must come out is (base \ minus) U plus as a SET (theorem c19_plus_minus).
+// Function level for all of them, Lint (v0 + v1 trigger policies) for the orderings with an absent entry in front
+// and a seeded eighth of the rest (all in the thorough tier).
+func listJobs(e *env, rng *hutil.Rng, tier string, targets []Target, rel []string) []job {
+	const unknown, filler = "verif.no_such_builtin", "http.send"
+	type grp struct{ oldest, newest Target }
+	groups := map[string]*grp{}
+	var order []string
+	for _, t := range targets { // per engine in ascending version order
+		p := e.presence(t, rel)
+		if p == nil {
+			continue
+		}
+		k := t.Engine + fmt.Sprint(p)
+		if g, ok := groups[k]; ok {
+			g.newest = t
+		} else {
+			groups[k] = &grp{t, t}
+			order = append(order, k)
+		}
+	}
+	var bases []Target
+	seenBase := map[string]bool{}
+	add := func(t Target) {
+		if !seenBase[t.key()] {
+			seenBase[t.key()] = true
+			bases = append(bases, t)
+		}
+	}
+	for _, k := range order {
+		add(groups[k].oldest)
+		add(groups[k].newest)
+	}
+	this := ast.CapabilitiesForThisVersion()
+	add(Target{Gen: &GenCaps{FutureKeywords: append([]string{}, this.FutureKeywords...), Features: append([]string{}, this.Features...),
+		WithoutBuiltins: []string{"sprintf"}}})
+	var jobs []job
+	for _, b := range bases {
+		if b.Engine != "" || b.Gen != nil {
+			jobs = append(jobs, job{"list", "", CaseIn{Target: b}}) // the base itself (embedded versions also have one in stream fn)
+		}
+		pres := e.presence(b, rel)
+		var absent, present []string
+		for i, n := range rel {
+			if pres != nil && pres[i] {
+				present = append(present, n)
+			} else {
+				absent = append(absent, n)
+			}
+		}
+		absent = append(absent, unknown)
+		type edit struct {
+			minus, plus, bare []string
+			lint              bool
+		}
+		var es []edit
+		for _, p := range permutations(rel) {
+			// an ordering whose first entry the base lacks while a later one is there
+			_, firstAbsent := indexOf(absent, p[0])
+			es = append(es, edit{minus: p, lint: firstAbsent && len(present) > 0})
+		}
+		for i := range rel { // two of the three, every order, an entry the base lacks at every position
+			two := append(append([]string{}, rel[:i]...), rel[i+1:]...)
+			for _, p := range permutations(two) {
+				for pos := 0; pos <= len(p); pos++ {
+					es = append(es, edit{minus: insertAt(p, pos, hutil.Choice(rng, absent)), lint: pos == 0 && rng.Below(2) == 0})
+				}
+			}
+		}
+		for _, n := range rel { // single entries next to an absent one, both orders; duplicates
+			a := hutil.Choice(rng, absent)
+			es = append(es, edit{minus: []string{a, n}, lint: true}, edit{minus: []string{n, a}}, edit{minus: []string{n, n}},
+				edit{minus: []string{a, a, n}}, edit{minus: []string{n, filler, n}})
+			// the same name in both lists: plus wins, whatever the base has
+			es = append(es, edit{minus: []string{n}, plus: []string{n}}, edit{minus: []string{a, n}, plus: []string{n, n}},
+				edit{minus: []string{n, unknown}, bare: []string{n}}, edit{plus: []string{n, unknown}, minus: []string{unknown, n}})
+		}
+		for _, p := range permutations(rel)[:3] {
+			es = append(es, edit{plus: p}, edit{plus: p[:2], minus: []string{p[2], p[0]}})
+		}
+		pool := append(append([]string{}, rel...), unknown, filler, "verif.another_unknown")
+		nRandom := 8
+		if tier == "thorough" {
+			nRandom = 40
+		}
+		for i := 0; i < nRandom; i++ {
+			var ed edit
+			for k := 1 + rng.Below(5); k > 0; k-- {
+				ed.minus = append(ed.minus, hutil.Choice(rng, pool))
+			}
+			for k := rng.Below(3); k > 0; k-- {
+				ed.plus = append(ed.plus, hutil.Choice(rng, pool[:4]))
+			}
+			es = append(es, ed)
+		}
+		seen := map[string]bool{}
+		for _, ed := range es {
+			t := b
+			t.Minus, t.Plus, t.PlusBare = ed.minus, ed.plus, ed.bare
+			if seen[t.key()] {
+				continue
+			}
+			seen[t.key()] = true
+			in := CaseIn{Target: t}
+			set := ""
+			if ed.lint || tier == "thorough" || rng.Below(8) == 0 {
+				set = "mixed"
+				in.Files = fileSets[set]
+			}
+			jobs = append(jobs, job{"list", set, in})
+		}
+	}
+	return jobs
+}
+
+func indexOf(xs []string, x string) (int, bool) {
+	for i, y := range xs {
+		if x == y {
+			return i, true
+		}
+	}
+	return -1, false
+}
+
 var fileSets = map[string][]FileSpec{
 	"v0x1":  {{"q/a.rego", "v0"}},
 	"v0x3":  {{"q/a.rego", "v0"}, {"q/b.rego", "v0"}, {"q/c.rego", "v0"}},
@@ -957,6 +1129,8 @@ func main() {
 			s := hutil.Choice(rng, setNames)
 			jobs = append(jobs, job{"lint", s + "-disabled", CaseIn{Target: t, Files: fileSets[s], Disabled: dis}})
 		}
+		// minus / plus LISTS as lists (stream "list"; drawn last so that the streams above stay as they were)
+		jobs = append(jobs, listJobs(e, rng, tier, targets, rel)...)
 	}
 	results := make([]CaseOut, len(jobs))
 	loads := make([]loaded, len(jobs))
